@@ -166,7 +166,7 @@ Definition c14_holds (txmax : N) (supp : bool) (ex : list expect) (xs : list eve
 (** * Hypotheses of the theorems, executable *)
 
 Definition hdr (c : cfg) : list token :=
-  TStruct :: match sub c with Some w => [TSubId w] | None => [] end.
+  TStruct :: match sub_w c with Some w => [TSubId w] | None => [] end.
 
 (** what a reply can take after [start_reply] and the opening of one array *)
 Definition fresh_room (c : cfg) : N := tx c - reserve_sz c - tsum (hdr c) - 2.
